@@ -584,3 +584,58 @@ impl Scenario for C03IncludeTrees {
         Ok(())
     }
 }
+
+
+/// supplementary input sampling (plain seeded generation, not fault simulation): sequences over the lexical
+/// alphabet of the format, which reach token arrangements that no single fault on a valid document produces
+pub struct C03TokenSoups;
+
+impl Scenario for C03TokenSoups {
+    fn property(&self) -> &'static str {
+        "C03"
+    }
+    fn name(&self) -> &'static str {
+        "token_soups"
+    }
+    fn run(&self, cx: &mut Cx) -> Result<(), Violation> {
+        let fs = SimFs::new("/work", cx.tape.draw_u64());
+        fs.install();
+        let alphabet: [&str; 40] = [
+            "/begin", "/end", "/include", "A2ML", "IF_DATA", "PROJECT", "MODULE", "MEASUREMENT", "CHARACTERISTIC", "ASAP2_VERSION", "A2ML_VERSION", "\"", "\"\"", "\"x\"", "\"a\\\"b\"", "/*", "*/", "//", "\n", "\r\n", " ", "\t", "0", "1", "71", "-1", "0x", "0xFF",
+            "1e3", "1e999", ".", "-", "ident", "a.b[1]", "9abc", "UBYTE", "block", "taggedstruct", ";", "{",
+        ];
+        let n = *cx.tape.pick(&[1usize, 2, 3, 5, 8, 13, 30, 80]);
+        let mut text = String::new();
+        // half of the soups start like a file so that the parser gets past the first tokens
+        if cx.tape.chance(1, 2) {
+            text.push_str("ASAP2_VERSION 1 71 /begin PROJECT p \"\" /begin MODULE m \"\" ");
+        }
+        // the small alphabet of the property statement half of the time, and a per-run separator probability
+        let hot: [&str; 12] = ["/begin", "/end", "/include", "A2ML", "IF_DATA", "\"", "\"\"", "/*", "//", "1", "x", "\n"];
+        let use_hot = cx.tape.chance(1, 2);
+        let sep16 = *cx.tape.pick(&[4u64, 8, 12, 16]);
+        if cx.tape.chance(1, 3) {
+            text.push_str("/begin IF_DATA ");
+        }
+        for _ in 0..n {
+            text.push_str(if use_hot { cx.tape.pick_str(&hot) } else { cx.tape.pick_str(&alphabet) });
+            if cx.tape.chance(sep16, 16) {
+                text.push(' ');
+            }
+        }
+        if cx.tape.chance(1, 3) {
+            text.push_str(" /end MODULE /end PROJECT");
+        }
+        let w = Workload { text: text.clone(), spans: Vec::new(), fragment: cx.tape.chance(1, 3), spec_valid: "block \"IF_DATA\" taggedunion { \"X\" struct { int; char[4]; }; block \"B\" (taggedstruct { \"T\" (uint)*; })*; };".to_string(), spec_damaged: cx.tape.pick_str(&["\"", "block", "block \"IF_DATA\" struct { int[", "enum {", "/include", "block \"IF_DATA\" taggedstruct { (\"X\")*; };"]).to_string() };
+        cx.event_lazy("token soup", || crate::runner::clip(&text, 600));
+        let cfgs = Config::all(w.fragment);
+        let cfg = *cx.tape.pick(&cfgs);
+        let label = cfg.label(w.fragment);
+        let outcome = load_once(cx, &fs, &w, text.as_bytes(), cfg, BTreeMap::new())?;
+        cx.event(&format!("{label} -> {outcome}"));
+        cx.nontrivial = true;
+        cx.sig(&format!("soup|{}|{label}|{outcome}", n.min(13)));
+        SimFs::uninstall();
+        Ok(())
+    }
+}
